@@ -36,7 +36,7 @@ for name in sys.argv[1:]:
             results[pid] = dict(exit=rc, violation_lines=viol[:3], first_replay=replay)
             print(f"[{name}] ./check {pid} quick -> exit {rc}; {viol[:1]}", flush=True)
     finally:
-        sh("git -C /repo checkout -- .")
+        sh("git -C /repo checkout -- . && git -C /repo clean -fdq src")
         sh("rm -rf /verif/replays")
         sh("git -C /verif checkout -- evidence")
     if "first_pass" not in m:
